@@ -2156,7 +2156,7 @@ impl StorageEngine {
     pub fn keys(&self, db: DatabaseIndex, pattern: &[u8]) -> Result<Vec<Vec<u8>>> {
         let database = self.databases.get(db).ok_or(StorageError::InvalidDatabase)?;
         
-        let pattern_str = String::from_utf8_lossy(pattern);
+        let pattern_str = glob_text(pattern);
         let mut matching_keys = Vec::new();
         
         // Collect keys from all shards
@@ -2166,7 +2166,7 @@ impl StorageEngine {
                 if stored_value.is_expired() {
                     continue;
                 }
-                let key_str = String::from_utf8_lossy(key);
+                let key_str = glob_text(key);
                 if pattern_matches(&pattern_str, &key_str) {
                     matching_keys.push(key.clone());
                 }
@@ -2340,7 +2340,7 @@ impl StorageEngine {
         let mut keys_examined = 0;
         let mut current_pos = start_pos;
         
-        let pattern_str = pattern.map(|p| String::from_utf8_lossy(p));
+        let pattern_str = pattern.map(glob_text);
         
         while (keys_examined < max_scan_count * 10 && matching_keys.len() < max_scan_count)
             // elements sharing one position are never split between two calls
@@ -2354,7 +2354,7 @@ impl StorageEngine {
             let mut include_key = true;
             
             if let Some(ref pat) = pattern_str {
-                let key_str = String::from_utf8_lossy(key);
+                let key_str = glob_text(key);
                 if !pattern_matches(pat, &key_str) {
                     include_key = false;
                 }
@@ -2405,7 +2405,7 @@ impl StorageEngine {
                 let mut result = Vec::new();
                 let mut fields_examined = 0;
                 let mut current_pos = start_pos;
-                let pattern_str = pattern.map(|p| String::from_utf8_lossy(p));
+                let pattern_str = pattern.map(glob_text);
                 
                 while (fields_examined < max_scan_count * 10 && (result.len() / if no_values { 1 } else { 2 }) < max_scan_count)
                     // elements sharing one position are never split between two calls
@@ -2419,7 +2419,7 @@ impl StorageEngine {
                     let mut include_field = true;
                     
                     if let Some(ref pat) = pattern_str {
-                        let field_str = String::from_utf8_lossy(field);
+                        let field_str = glob_text(field);
                         if !pattern_matches(pat, &field_str) {
                             include_field = false;
                         }
@@ -2475,7 +2475,7 @@ impl StorageEngine {
                 let mut result = Vec::new();
                 let mut members_examined = 0;
                 let mut current_pos = start_pos;
-                let pattern_str = pattern.map(|p| String::from_utf8_lossy(p));
+                let pattern_str = pattern.map(glob_text);
                 
                 while (members_examined < max_scan_count * 10 && result.len() < max_scan_count)
                     // elements sharing one position are never split between two calls
@@ -2489,7 +2489,7 @@ impl StorageEngine {
                     let mut include_member = true;
                     
                     if let Some(ref pat) = pattern_str {
-                        let member_str = String::from_utf8_lossy(member);
+                        let member_str = glob_text(member);
                         if !pattern_matches(pat, &member_str) {
                             include_member = false;
                         }
@@ -2546,7 +2546,7 @@ impl StorageEngine {
                 let mut result = Vec::new();
                 let mut items_examined = 0;
                 let mut current_pos = start_pos;
-                let pattern_str = pattern.map(|p| String::from_utf8_lossy(p));
+                let pattern_str = pattern.map(glob_text);
                 
                 while (items_examined < max_scan_count * 10 && result.len() < max_scan_count)
                     // elements sharing one position are never split between two calls
@@ -2560,7 +2560,7 @@ impl StorageEngine {
                     let mut include_item = true;
                     
                     if let Some(ref pat) = pattern_str {
-                        let member_str = String::from_utf8_lossy(member);
+                        let member_str = glob_text(member);
                         if !pattern_matches(pat, &member_str) {
                             include_item = false;
                         }
@@ -2845,6 +2845,12 @@ mod tests {
         // All should succeed without any access time tracking overhead
         assert!(true);
     }
+}
+
+/// Text for `pattern_matches`: one char per byte, so that patterns and names are compared byte by
+/// byte (a lossy UTF-8 decoding makes all invalid bytes equal and lets `?` span several bytes)
+fn glob_text(bytes: &[u8]) -> String {
+    bytes.iter().map(|&b| b as char).collect()
 }
 
 /// Simple glob pattern matching (unchanged)
